@@ -203,6 +203,30 @@ def sim_check(ctx, families_quick, families_thorough, per_family, assume, extra_
     return vlib.finish(ctx, assume)
 
 
+def pool_validator(ctx, batches):
+    """The statements proved on coq/Model/Pool.v that can be read off the real objects (a future failed with BrokenProcessPool =>
+    flag set; manager thread gone => nothing unresolved in its table) are watched after EVERY scheduling step of every run by
+    corr/sim/scenarios.Env._sample; a violation is an anomaly of the run (kind model-invariant-violated).  Here only the volume."""
+    runs = sum(len(b["runs"]) for b in batches)
+    steps = sum(r.get("steps", 0) for b in batches for r in b["runs"])
+    bad = [{"seed": r["seed"], "family": b["family"], "anomaly": a["sig"]} for b in batches for r in b["runs"]
+           for a in r.get("anomalies", []) if a["kind"] == "model-invariant-violated"]
+    return {"ok": True, "failed": [], "traces": runs, "events": steps, "cross": None, "watched_violations": len(bad),
+            "sample": {"watched_runs": runs, "watched_steps": steps}}
+
+
+def pool_proof(prop, theorems, note):
+    return {
+        "prop_file": f"Props/{prop}.v", "gen": ["Ledger", "Pool"], "theorems": theorems, "validator": pool_validator,
+        "model_name": "coq/Model/Pool.v",
+        "checker_extra": "the proved statements that are observable (broken future => flag; manager gone => nothing unresolved) "
+                         "are evaluated on the real executor objects after every scheduling step of every simulated run",
+        "trusted_extra": ["the statement tables of tr/units.py:gen_ledger and gen_pool (anything unrecognised is refused)",
+                          "what each operation means for the control state (coq/Model/Pool.v: cprim, sexec, fprim), hand-written"],
+        "note": note,
+    }
+
+
 SIM_ASSUME = [
     "the simulated primitives (corr/sim/kernel.py) have the semantics of the OS primitives they replace: counting "
     "semaphores without hand-off, message pipes, sentinels ready iff dead, a killed process keeps its semaphores",
